@@ -164,6 +164,7 @@ type Run struct {
 	syncMaps   map[string]*MapV
 	clockLog   []*Term
 	randInts   []*Term
+	pairs      []*pairEntry
 	onceDone   map[string]bool
 	curScript  *scripted
 	schedLog   []int
